@@ -200,6 +200,9 @@ def make_files():
     present = np.ones((6, 7), bool)
     present[0, 0] = present[2, 3] = present[5, 6] = False
     seg3('irr', (6, 7, 24), 8, None, present=present)
+    pn = os.path.join(d, 'np2.sgz')
+    write_numpy_sgz(pn, rnd_cube(g, (5, 6, 30)), bpv=2, blockshape=(4, 4, -1), ilines=np.arange(1, 6), xlines=np.arange(20, 26), samples=np.arange(30) * 4.0)
+    F['np2'] = (pn, None)
     sgy = os.path.join(d, 'l2.sgy'); p = os.path.join(d, 'l2.sgz')
     mk_segy_2d(sgy, rnd_cube(g, (21, 40)))
     write_segy_sgz(sgy, p, bpv=8, blockshape=(1, 4, -1))
@@ -364,7 +367,7 @@ def part_a(files, census):
             except ImportError:
                 R.count('xarray not importable')
         # converters from SEG-Y
-        for rep in range(1):
+        for rep in range(1 if sgy else 0):
             c = quiet(SegyConverter, sgy)
             out = os.path.join(d, 'conv.sgz')
             for kw in (dict(bits_per_voxel=8), dict(bits_per_voxel=4, header_detection='thorough'), dict(bits_per_voxel=8, blockshape=(4, 4, -1) if not M['is2d'] else (1, 4, -1))):
@@ -386,7 +389,12 @@ def part_a(files, census):
     arr = rnd_cube(g, (5, 6, 20))
     hdrs = {segyio.tracefield.TraceField.CDP_X: np.arange(30, dtype=np.int64).reshape(5, 6)}
     for th in ({}, hdrs):
-        nc = NumpyConverter(arr, trace_headers=th) if th else NumpyConverter(arr)
+        try:
+            nc = NumpyConverter(arr, trace_headers=th) if th else NumpyConverter(arr)
+        except Exception as e:
+            R.violation('oracle', {'class': 'NumpyConverter', 'calls': ['__init__ (after earlier constructions in this process)']},
+                        f'constructing a NumpyConverter fails with {type(e).__name__}: state left by an earlier construction?')
+            continue
         for kw in (dict(bits_per_voxel=8), dict(bits_per_voxel=4)):
             s0 = snapshot(nc)
             quiet(call_kw, nc, 'run', (os.path.join(d, 'n.sgz'),), kw)
@@ -495,7 +503,8 @@ def part_b(files):
         segy_ops = [('run', ('@OUT',), dict(bits_per_voxel=8), True), ('run', ('@OUT',), dict(bits_per_voxel=4, header_detection='thorough'), True),
                     ('run', ('@OUT',), dict(bits_per_voxel=8, blockshape=bs2, header_detection='exhaustive'), True),
                     ('run', ('@OUT',), dict(bits_per_voxel=16, header_detection='strip'), True)]
-        pools['SegyConverter'] = (lambda: quiet(SegyConverter, sgy), segy_ops, ['run'])
+        if sgy:
+            pools['SegyConverter'] = (lambda: quiet(SegyConverter, sgy), segy_ops, ['run'])
         for cname, (make, ops, special) in pools.items():
             for si in range(nseq if cname != 'SegyConverter' else max(2, nseq // 3)):
                 n = rng.randrange(4, 11)
@@ -536,8 +545,12 @@ def part_b(files):
         make = (lambda: NumpyConverter(arr)) if th is None else (lambda: NumpyConverter(arr, trace_headers=dict(hd)))
         for si in range(2 if quick else 8):
             seq = [rng.choice(ops) for _ in range(rng.randrange(2, 5))]
-            want = [fresh_result(('NumpyConverter', th is None), make, op, os.path.join(d, 'nf.bin')) for op in seq]
-            obj = make()
+            try:
+                want = [fresh_result(('NumpyConverter', th is None), make, op, os.path.join(d, 'nf.bin')) for op in seq]
+                obj = make()
+            except Exception as e:
+                R.violation('oracle', {'class': 'NumpyConverter', 'calls': ['__init__']}, f'constructing a NumpyConverter fails with {type(e).__name__}')
+                break
             for i, op in enumerate(seq):
                 got = run_op(obj, op, os.path.join(d, 'no.bin'))
                 R.case(f'b|numpy|{th is None}|{si}|{i}', nontrivial=i > 0, sample={'class': 'NumpyConverter', 'position': i})
@@ -568,16 +581,32 @@ try:
             R.notes.append(f"generated side conditions differ from those proved: restored={data['restored']} scratch={data['scratch']} "
                            f"order_uses={data['memo_order_uses']} sticky={data['sticky']} defaults={data['mutable_defaults']}")
         # static verdict of the census itself, in Python (mirror of Model/StateFoot.v method_ok), reported as corr
+        def evidence(e):
+            if e[3] == 'restored':
+                return (e[0], e[1], e[2]) in data['restored']
+            if e[3] == 'scratch':
+                return any(x[0] == e[0] and x[1] == e[2] for x in data['scratch'])
+            if e[3] == 'alias':
+                return bool(data['numpy_guard'])
+            return True
+        nstatic = 0
         for c, row in census.items():
             cache = cache_of(row['mro'], c)
             for n, m in row['methods'].items():
                 if not m['public'] or n in LIFECYCLE:
                     continue
                 for t in m['closure']:
-                    ex = [e for e in EXCEPTIONS if e[0] == c and e[1] == n and e[2] == t]
+                    ex = [e for e in EXCEPTIONS if e[0] == c and e[1] == n and e[2] == t and evidence(e)]
                     if t not in cache and not ex:
-                        R.violation('corr', {'class': c, 'method': n, 'token': t},
-                                    f'the census says public method {c}.{n} can write {t}, which is neither a cache token nor a listed exception')
+                        nstatic += 1
+                        R.count('static: footprint outside the cache set')
+                        if nstatic <= 3:
+                            R.violation('corr', {'class': c, 'method': n, 'token': t},
+                                        f'the census says public method {c}.{n} can write {t}, which is neither a cache token nor a listed exception '
+                                        f'with its evidence (the proof C15a_census_checked fails on this tree)')
+        for (c_, m_, p_, esc) in data['mutable_defaults']:
+            if esc:
+                R.violation('corr', {'class': c_, 'method': m_, 'param': p_}, 'a mutable default argument is mutated / escapes: shared between calls')
         if not a.no_model:
             try:
                 from coqeval import coq_eval
